@@ -219,7 +219,8 @@ def run_shared(rep, prog, cprog):
     try:
         u, _ = py_slice_update(stm['dfactor[1:-1]'], {'dx'})
         okp = (u.lo, u.hi) == (1, -1) and u.expr.equals(_parse_at('2/(dx@-1 + dx@0)')) and ast.unparse(stm['dfactor[0]'].value) == '2 / dx[0]' and \
-            ast.unparse(stm['dfactor[-1]'].value) == '2 / dx[-1]' and ast.unparse(stm['dfactor'].value) == 'numpy.zeros(len(dx) + 1)'
+            ast.unparse(stm['dfactor[-1]'].value) == '2 / dx[-1]' and ast.unparse(stm['dfactor'].value) in ('numpy.zeros(len(dx) + 1)', 'numpy.empty(len(dx) + 1)', 'numpy.zeros(len(dx) + 1, dtype=float)')
+        # (numpy.empty is as good as numpy.zeros here: the three stores [0], [1:-1], [-1] required above cover every cell)
     except (KeyError, AlgebraError):
         okp = False
     rep.ob('R-ALG', 'Python _compute_dfactor', okp, '; '.join(ast.unparse(s) for s in pdf.body if isinstance(s, ast.Assign)), im.rel, pdf.lineno,
@@ -289,20 +290,43 @@ def run_shared(rep, prog, cprog):
                             why.append('without the switch the function returns %s' % mx.show(v)[:40])
                         continue
                     seen = set()
+
+                    def nonfinite(cond):
+                        """(kinds of non-finite values the condition selects, the array it tests, selects-finite?) or None"""
+                        for k in ('isnan', 'isinf', 'isfinite'):
+                            c_ = mx.call_of(cond, k)
+                            if c_ is not None and len(c_[0]) == 1:
+                                return ({'nan'} if k == 'isnan' else {'inf'} if k == 'isinf' else {'nan', 'inf'}), c_[0][0], k == 'isfinite'
+                        if isinstance(cond, mx.Sym) and cond.struct and cond.struct[0] == 'binop' and cond.struct[1] == '|':
+                            l_, r_ = nonfinite(cond.struct[2]), nonfinite(cond.struct[3])
+                            if l_ and r_ and not l_[2] and not r_[2] and mx.show(l_[1]) == mx.show(r_[1]):
+                                return l_[0] | r_[0], l_[1], False
+                        c_ = mx.call_of(cond, 'logical_or')
+                        if c_ is not None and len(c_[0]) == 2:
+                            l_, r_ = nonfinite(c_[0][0]), nonfinite(c_[0][1])
+                            if l_ and r_ and not l_[2] and not r_[2] and mx.show(l_[1]) == mx.show(r_[1]):
+                                return l_[0] | r_[0], l_[1], False
+                        c_ = mx.call_of(cond, 'logical_not')
+                        inner = c_[0][0] if c_ is not None and len(c_[0]) == 1 else (cond.struct[2] if isinstance(cond, mx.Sym) and cond.struct and cond.struct[0] == 'unary' and cond.struct[1] in ('~', 'Invert') else None)
+                        if inner is not None:
+                            r_ = nonfinite(inner)
+                            if r_ and r_[2]:
+                                return r_[0], r_[1], False
+                        return None
                     for _ in range(4):
                         c = mx.call_of(v, 'where')
                         if not c or len(c[0]) != 3:
                             break
                         cond, a, b = c[0]
-                        kind = next((k for k in ('isnan', 'isinf', 'isfinite') if mx.call_of(cond, k) is not None), None)
-                        if kind is None:
+                        nf = nonfinite(cond)
+                        if nf is None:
                             break
-                        arg = mx.call_of(cond, kind)[0][0]
-                        if kind == 'isfinite' and mx.show(a) == mx.show(arg) and b == 0.5:
-                            seen |= {'nan', 'inf'}
+                        kinds, arg, selects_finite = nf
+                        if selects_finite and mx.show(a) == mx.show(arg) and b == 0.5:
+                            seen |= kinds
                             v = a
-                        elif kind in ('isnan', 'isinf') and a == 0.5 and mx.show(b) == mx.show(arg):
-                            seen.add(kind[2:])
+                        elif not selects_finite and a == 0.5 and mx.show(b) == mx.show(arg):
+                            seen |= kinds
                             v = b
                         else:
                             break
